@@ -17,6 +17,10 @@ example : propagateAdd .sum true ms = some 54 := by decide +kernel
 -- means: divided by the square of the number of contributing members (3 for mean, 2 for nanmean)
 example : isMeanOp .mean = true ∧ (contributing .mean false ms).length = 3 ∧
     propagateAdd .mean false ms = some (38 / 9) ∧ propagateAdd .nanmean false ms = some (34 / 4) := by decide +kernel
+-- nothing contributes (a block of a cube that is NaN throughout, seed C16-i): the empty combination, 0
+def allNan : List Member := [⟨.nan, 4, false⟩, ⟨.nan, 9, false⟩]
+example : allNan ≠ [] ∧ (∀ m ∈ allNan, excluded .nansum false m = true) ∧
+    propagateAdd .nansum false allNan = some 0 ∧ propagateAdd .nanmean true allNan = some 0 := by decide +kernel
 -- flattening: the six members of block (1, 0) of a (4, 6) array binned by (2, 3), in the order of the first axis
 example : (List.range (prodL [2, 3])).map (fun m => flatMember (zipDiv [4, 6] [2, 3]) [2, 3] m [1, 0])
     = [12, 13, 14, 18, 19, 20] := by decide +kernel
